@@ -3,6 +3,7 @@ package main
 import (
 	"fmt"
 	"math/rand"
+	"time"
 
 	"github.com/brutella/hc/characteristic"
 
@@ -197,6 +198,9 @@ func inproc(r *vf.Run, subjects []subject) {
 				}
 			}
 		}
+		if !p.pw || !p.pr {
+			overlappedWrite(s, rnd)
+		}
 		exercised[s.Name] = true
 
 		// sequences on one object
@@ -256,6 +260,93 @@ func inproc(r *vf.Run, subjects []subject) {
 	r.Count("inproc_synthetic_format_x_permset", len(synthCover))
 	r.Floor("inproc: synthetic format x permission subsets", len(synthCover), len(allFormats)*8)
 	r.Floor("inproc: remote updates on characteristics without pw", int(r.Counter("inproc_remote_updates_without_pw")), 1000)
+	r.Floor("inproc: remote writes overlapping a local update", int(r.Counter("inproc_remote_writes_overlapping_a_local_update")), 40)
 	r.Floor("inproc: checks on characteristics without pr", int(r.Counter("inproc_unreadable_checks")), 1000)
 	r.Floor("inproc: positive control (a writable characteristic's callback fires)", int(r.Counter("inproc_control_writable_callback_fired")), 100)
+}
+
+// overlappedWrite: a remote write arrives while the application is INSIDE an update of the same characteristic (a slow
+// OnValueUpdate callback of a local SetValue; hc calls the callbacks on the updating goroutine), once from another
+// goroutine and once from inside the callback itself.  Whatever the library does to cope with updates that overlap or
+// nest, a characteristic without pw keeps its value and its remote callbacks stay silent.
+func overlappedWrite(s subject, rnd *rand.Rand) {
+	c := s.make()
+	if c == nil {
+		return
+	}
+	p := declared(c)
+	rec := instrument(c)
+	lv, ok := goodValue(c, rnd, fmt.Sprintf("%#v", c.Value))
+	if !ok {
+		return
+	}
+	entered, release := make(chan struct{}), make(chan struct{})
+	nested := make(chan [2]string, 1)
+	rv1, ok1 := goodValue(c, rnd, fmt.Sprintf("%#v", lv), fmt.Sprintf("%#v", c.Value))
+	rv2, ok2 := goodValue(c, rnd, fmt.Sprintf("%#v", lv), fmt.Sprintf("%#v", c.Value), fmt.Sprintf("%#v", rv1))
+	if !ok1 {
+		return
+	}
+	if !ok2 {
+		rv2 = rv1
+	}
+	first := true
+	c.OnValueUpdate(func(*characteristic.Characteristic, interface{}, interface{}) {
+		if !first {
+			return
+		}
+		first = false
+		close(entered)
+		<-release
+		// nested: the callback itself passes on a remote value (an application that mirrors one characteristic into another
+		// may end up here)
+		b := fmt.Sprintf("%#v", c.Value)
+		vf.Recover(func() { c.UpdateValueFromConnection(rv2, peer) })
+		nested <- [2]string{b, fmt.Sprintf("%#v", c.Value)}
+	})
+	done := make(chan struct{})
+	go func() {
+		defer close(done)
+		vf.Recover(func() { c.UpdateValue(lv) })
+	}()
+	select {
+	case <-entered:
+	case <-done:
+		return // the local value did not change anything: nothing overlaps
+	case <-time.After(5 * time.Second):
+		return
+	}
+	run.Eval()
+	run.Count("inproc_remote_writes_overlapping_a_local_update", 1)
+	before := fmt.Sprintf("%#v", c.Value)
+	_, r0 := rec.counts()
+	vf.Recover(func() { c.UpdateValueFromConnection(rv1, peer) })
+	after := fmt.Sprintf("%#v", c.Value)
+	close(release)
+	var nb [2]string
+	select {
+	case nb = <-nested:
+	case <-time.After(5 * time.Second):
+	}
+	<-done
+	_, r1 := rec.counts()
+	hist := []string{"UpdateValue(" + show(lv) + ") — its OnValueUpdate callback is still running", "UpdateValueFromConnection(" + show(rv1) + ") from another goroutine",
+		"UpdateValueFromConnection(" + show(rv2) + ") from inside the callback"}
+	if !p.pw {
+		if after != before {
+			violate("inproc:write:no-pw:value-changed:overlapping-update", fmt.Sprintf("a remote write that arrives while a local update of the same characteristic (perms %v) is in its callback changed Value from %s to %s", c.Perms, trunc(before, 60), trunc(after, 60)), s.Name,
+				map[string]interface{}{"characteristic": describe(s, c), "history": hist[:2], "before": trunc(before, 200), "after": trunc(after, 200)})
+		}
+		if nb[0] != nb[1] {
+			violate("inproc:write:no-pw:value-changed:nested-update", fmt.Sprintf("a remote write made from inside an update callback of the same characteristic (perms %v) changed Value from %s to %s", c.Perms, trunc(nb[0], 60), trunc(nb[1], 60)), s.Name,
+				map[string]interface{}{"characteristic": describe(s, c), "history": hist, "before": trunc(nb[0], 200), "after": trunc(nb[1], 200)})
+		}
+		if r1 != r0 {
+			violate("inproc:write:no-pw:callback-fired:overlapping-update", fmt.Sprintf("remote writes overlapping / nested in a local update of a characteristic with perms %v invoked %d OnValueUpdateFromConn callbacks", c.Perms, r1-r0), s.Name,
+				map[string]interface{}{"characteristic": describe(s, c), "history": hist})
+		}
+	}
+	if !p.pr {
+		checkUnreadable("inproc", s, c, hist)
+	}
 }
